@@ -182,6 +182,24 @@ class Inliner(object):
     # a name that is also a function the rules know is not a new helper
     for q in known:
       self.helpers.pop(q.split('.')[-1], None)
+    # new local closures: readable in place inside the function that defines
+    # them (free variables are looked up at call time, exactly as inlined code
+    # would); keyed by (qualified name of the defining function, own name)
+    self.closures = {}
+    known_simple = {q.split('.')[-1] for q in known}
+    allfn = roles.functions(tree)
+    for q, fn in allfn.items():
+      if q not in new_names or '.' not in q:
+        continue
+      parent = q.rsplit('.', 1)[0]
+      if parent in allfn and fn.name not in known_simple:
+        self.closures[(parent, fn.name)] = fn
+    for key, fn in list(self.closures.items()):
+      recursive = any(isinstance(c, ast.Call) and isinstance(c.func, ast.Name) and
+                      c.func.id == fn.name for c in ast.walk(fn))
+      rebinds_outer = any(isinstance(x, (ast.Nonlocal, ast.Global)) for x in ast.walk(fn))
+      if recursive or rebinds_outer or _is_generator(fn) or fn.decorator_list:
+        del self.closures[key]
     for n, (fn, cls) in list(self.helpers.items()):
       recursive = any(isinstance(c, ast.Call) and (
           (isinstance(c.func, ast.Name) and c.func.id == fn.name) or
@@ -375,8 +393,19 @@ class Inliner(object):
       self.notes.append(h.name)
 
   # -- driver ---------------------------------------------------------------------
+  def _remove_def(self, holder_fn, node):
+    for holder in ast.walk(holder_fn):
+      for f in ('body', 'orelse', 'finalbody'):
+        body = getattr(holder, f, None)
+        if isinstance(body, list) and node in body:
+          body.remove(node)
+          if not body:
+            body.append(ast.Pass())
+          return
+
   def run(self):
-    if not self.helpers:
+    self.closure_notes = []
+    if not self.helpers and not self.closures:
       return []
     for _ in range(MAX_ROUNDS):
       before = len(self.notes), self.counter
@@ -386,18 +415,43 @@ class Inliner(object):
         names = set(roles.bound_names(fn)) | set(roles.params(fn)) | {
             n.id for n in _own_nodes(fn) if isinstance(n, ast.Name)}
         saved = self.helpers.pop(fn.name, None)
+        # closures defined directly in this function are helpers while it is read
+        mine = {}
+        for (parent, cname), cfn in self.closures.items():
+          if parent == q and cname not in self.helpers and not any(
+              isinstance(n_, ast.Name) and n_.id == cname and isinstance(n_.ctx, ast.Load) and
+              not any(isinstance(p_, ast.Call) and p_.func is n_ for p_ in _own_nodes(fn))
+              for n_ in _own_nodes(fn)):
+            mine[cname] = (cfn, None)
+        self.helpers.update(mine)
+        self._closure_scope = dict(mine)
         dump0 = None
         if any(isinstance(c, ast.Call) and self.target(c)[0] is not None for c in _own_nodes(fn)):
           dump0 = True
           fn.body = self.rewrite_block(fn.body, names) or [ast.Pass()]
           ast.fix_missing_locations(fn)
           changed = True
+        for cname in mine:
+          self.helpers.pop(cname, None)
+          left = [n_ for n_ in _own_nodes(fn) if isinstance(n_, ast.Name) and n_.id == cname and
+                  isinstance(n_.ctx, ast.Load)]
+          nested_use = any(isinstance(n_, ast.Name) and n_.id == cname
+                           for g in ast.walk(fn) if isinstance(g, FUNC + (ast.Lambda,)) and g is not fn
+                           and g is not mine[cname][0] for n_ in ast.walk(g))
+          if cname in self.notes and (left or nested_use):
+            self.notes.remove(cname)
+          if cname in self.notes:
+            # every call was read in place (a closure passed around as a value
+            # is never offered): the definition goes
+            self._remove_def(fn, mine[cname][0])
+            self.notes.remove(cname)
+            self.closure_notes.append('%s.%s' % (q, cname))
         if saved is not None:
           self.helpers[fn.name] = saved
       if not changed or (len(self.notes), self.counter) == before:
         break
     self.drop_dissolved()
-    return self.notes
+    return self.notes + self.closure_notes
 
   def drop_dissolved(self):
     """a helper all of whose call sites were read in place no longer exists as
